@@ -243,6 +243,16 @@ def deployments(tier):
         dep(f"tri3-ample-k{k}", {"a0": 100, "a1": 100, "a2": 100}, one, tri3, k)
         dep(f"tri3-tight-k{k}", {"a0": 4, "a1": 2, "a2": 4}, big, tri3, k)
         dep(f"tri3-small-k{k}", {"a0": 5, "a1": 5, "a2": 5}, big, tri3, k, routes={"a0": {"a1": 2}, "a1": {"a0": 2}}, hosting={"a1": {"c0": 1}})
+    # non-integer route / hosting costs (sums that round differently along a path and in the paths table), replicas 2 hops away
+    fr = {"a0": {"a1": 0.1, "a2": 2.0}, "a1": {"a0": 0.1, "a2": 0.4}, "a2": {"a1": 0.4, "a0": 2.0}}
+    fh = {"a0": {"c1": 0.2, "c2": 0.7}, "a1": {"c0": 0.2, "c2": 0.2}, "a2": {"c0": 0.7, "c1": 0.2}}
+    for k in (2,) if q else (1, 2):
+        dep(f"line3-decimal-costs-k{k}", {"a0": 100, "a1": 100, "a2": 100}, one, line3, k, routes=fr, hosting=fh)
+    fr2 = {"a0": {"a1": 0.3, "a2": 1.1}, "a1": {"a0": 0.3, "a2": 0.7}, "a2": {"a1": 0.7, "a0": 1.1}}
+    fh2 = {"a0": {"c1": 0.1, "c2": 0.3}, "a1": {"c0": 0.1, "c2": 0.4}, "a2": {"c0": 0.3, "c1": 0.1}}
+    if not q:
+        for k in (1, 2):
+            dep(f"tri3-decimal-costs-k{k}", {"a0": 100, "a1": 100, "a2": 100}, one, tri3, k, routes=fr2, hosting=fh2)
     # two computations per agent (several replicas from the same owner: the worst-case footprint per owner matters)
     two = {"a0": {"c0": 1, "c3": 3}, "a1": {"c1": 1, "c4": 3}, "a2": {"c2": 1}}
     edges5 = [("c0", "c1"), ("c1", "c2"), ("c3", "c4"), ("c0", "c4"), ("c3", "c2")]
@@ -293,7 +303,11 @@ def explore(dep, schedule, part):
     def report(key, what, w, hist):
         part.violation(key, what, {"dep": dep, "schedule": schedule, "leave": leave, "history": netx.unroll(hist)})
 
+    ex.track_graph = True
     st = ex.run(world, report)
+    for d, h in ex.livelocked()[:1]:
+        part.violation("C25|replication-livelock", f"deployment {dep['name']} schedule {schedule}: from the state reached by this history no continuation ever quiesces (request/answer loop): replication is never done", {"dep": dep, "schedule": schedule, "leave": leave, "history": netx.unroll(h)})
+        part.count("livelocked_states", len(ex.livelocked()))
     for k in ("states", "transitions", "traces", "revisits"):
         part.count(k, st[k])
     part.maxi("depth", st["max_depth"])
@@ -327,6 +341,8 @@ def run(ctx):
     jobs = []
     for d in deps:
         small = len(d["agents"]) == 3 and (all(len(a["comps"]) == 1 for a in d["agents"].values()) or not ctx.quick)
+        if ctx.quick and "decimal" in d["name"]:
+            small = False  # 21000 states under all interleavings: canonical schedules in the quick tier
         if small:
             jobs.append((d, "all"))
             if d["name"] in LEAVE_DEPS_QUICK or (not ctx.quick and all(len(a["comps"]) == 1 for a in d["agents"].values())):
@@ -353,7 +369,7 @@ def run(ctx):
     buckets = [[] for _ in range(n)]
     def weight(j):
         # measured: the exhaustive runs of the ample k=2 deployments and the departure runs dominate (30-45 s each)
-        heavy = j[1].startswith("leave:") or (j[1] == "all" and "ample-k2" in j[0]["name"]) or (j[1] == "all" and not ctx.quick)
+        heavy = j[1].startswith("leave:") or (j[1] == "all" and ("ample-k2" in j[0]["name"] or "decimal" in j[0]["name"])) or (j[1] == "all" and not ctx.quick)
         return 30 if heavy else 1
 
     load = [0] * n
@@ -383,6 +399,13 @@ def replay(case):
     print({a: dict(w.comps["_replication_" + a]._hosted_replicas) for a in dep["agents"] if "_replication_" + a in w.comps})
     if not netx.enabled_events(w, sp):
         sp.check_end(w, lambda k, what: found.append((k, what)))
+    else:
+        # livelock cases: no continuation from the replayed state may ever quiesce
+        ex = netx.Explorer(sp, shared=shared, schedule=case.get("schedule", "all"), max_states=50000)
+        ex.track_graph = True
+        ex.run(w, lambda key, what, w_, h: found.append((key, what)))
+        if any(h is None for _, h in ex.livelocked()):
+            found.append(("C25|replication-livelock", f"no end state reachable from the replayed state ({ex.stats['states']} states explored, {len(ex.terminal)} end states)"))
     for k, what in found:
         print("FOUND", k, "::", what)
     return bool(found)
